@@ -61,6 +61,7 @@ impl Check for Simple {
     }
 }
 
+pub const COMMON_ASSUME_PUB: &[&str] = COMMON_ASSUME;
 const COMMON_ASSUME: &[&str] = &[
     "client, transport and application are models (SimStream, scripted client, SimShim); msql-srv, nom, mysql_common, chrono, rustls are the real code built from /repo's working tree",
     "client visibility = bytes the server has flushed to the transport",
@@ -75,7 +76,158 @@ fn payload_len_c01(r: &mut Rng) -> usize {
     size_small(r).max(1)
 }
 
-fn gen_c01(r: &mut Rng, _t: Tier, _job: u64) -> Plan {
+/// giant inbound payloads: L = k*(2^24-1)+d with explicit read boundaries around every packet
+/// header and fragment boundary
+pub fn gen_giant_inbound(r: &mut Rng, seq: u8) -> Plan {
+    let k = match r.weighted(&[55, 30, 15]) {
+        0 => 1u64,
+        1 => 2,
+        _ => 3,
+    };
+    let d = r.irange(-3, 3);
+    let len = ((k * U24) as i64 + d) as u32;
+    let mut cmds = Vec::new();
+    match r.below(3) {
+        0 => {
+            // the payload is command byte + text: text length = len - 1
+            cmds.push(Cmd {
+                seq,
+                kind: CmdKind::Query(Blob::Gen {
+                    len: len - 1,
+                    salt: r.next() as u32,
+                    ascii: true,
+                }),
+                act: Act::Program(simple_ok_program()),
+            });
+        }
+        1 => {
+            cmds.push(Cmd {
+                seq: 0,
+                kind: CmdKind::Prepare(Blob::lit(b"p")),
+                act: Act::Prepare(PrepAct::Reply {
+                    id: 4,
+                    params: vec![ColSpec {
+                        table: Blob::lit(b""),
+                        name: Blob::lit(b"p"),
+                        coltype: 0xfc,
+                        flags: 0,
+                    }],
+                    cols: vec![],
+                }),
+            });
+            // payload = 1 + 4 + 2 + data
+            cmds.push(Cmd {
+                seq,
+                kind: CmdKind::LongData {
+                    stmt: 4,
+                    param: 0,
+                    data: Blob::Gen {
+                        len: len - 7,
+                        salt: r.next() as u32,
+                        ascii: false,
+                    },
+                },
+                act: Act::None,
+            });
+            cmds.push(Cmd {
+                seq: 0,
+                kind: CmdKind::Execute {
+                    stmt: 4,
+                    flags: 0,
+                    iters: 1,
+                    block: ParamBlock {
+                        bind: Some(vec![(0xfc, 0)]),
+                        values: vec![PVal::Skip],
+                        raw: None,
+                    },
+                },
+                act: Act::Program(simple_ok_program()),
+            });
+        }
+        _ => {
+            // inline giant parameter: payload = 1+4+1+4 + nullmap(1) + flag(1) + types(2) + lenenc(4|9) + data
+            cmds.push(Cmd {
+                seq: 0,
+                kind: CmdKind::Prepare(Blob::lit(b"p")),
+                act: Act::Prepare(PrepAct::Reply {
+                    id: 4,
+                    params: vec![ColSpec {
+                        table: Blob::lit(b""),
+                        name: Blob::lit(b"p"),
+                        coltype: 0xfc,
+                        flags: 0,
+                    }],
+                    cols: vec![],
+                }),
+            });
+            let data_len = len.saturating_sub(18);
+            cmds.push(Cmd {
+                seq,
+                kind: CmdKind::Execute {
+                    stmt: 4,
+                    flags: 0,
+                    iters: 1,
+                    block: ParamBlock {
+                        bind: Some(vec![(0xfb, 0)]),
+                        values: vec![PVal::Bytes {
+                            data: Blob::Gen {
+                                len: data_len + r.below(12) as u32,
+                                salt: r.next() as u32,
+                                ascii: false,
+                            },
+                            form: 0,
+                        }],
+                        raw: None,
+                    },
+                },
+                act: Act::Program(simple_ok_program()),
+            });
+        }
+    }
+    // a small neighbour on each side so that attribution errors are visible
+    cmds.insert(
+        0,
+        Cmd {
+            seq: 0,
+            kind: CmdKind::Query(Blob::lit(b"before")),
+            act: Act::Program(simple_ok_program()),
+        },
+    );
+    cmds.push(Cmd {
+        seq: 0,
+        kind: CmdKind::Query(Blob::lit(b"after")),
+        act: Act::Program(simple_ok_program()),
+    });
+    let mut p = Plan::basic(cmds);
+    p.arrival = Arrival::upfront();
+    let (hdrs, total) = header_offsets(&p);
+    let mut cuts = Vec::new();
+    for h in &hdrs {
+        // 1..3-byte steps within +-8 bytes of every header
+        let mut x = h.saturating_sub(8);
+        while x < (h + 12).min(total) {
+            x += 1 + r.below(3);
+            cuts.push(x);
+        }
+    }
+    cuts.sort_unstable();
+    cuts.dedup();
+    p.reads = ReadSched {
+        explicit: vec![],
+        cuts,
+        tail: Tail::Fixed(*r.pick(&[2_097_152u32, 1_048_576, 4_194_304, 3_000_001])),
+    };
+    p
+}
+
+pub const GIANTS_Q: u64 = 16;
+pub const GIANTS_T: u64 = 1200;
+
+fn gen_c01(r: &mut Rng, t: Tier, job: u64) -> Plan {
+    let giants = if t == Tier::Quick { GIANTS_Q } else { GIANTS_T };
+    if job < giants {
+        return gen_giant_inbound(r, 0);
+    }
     let n = 1 + r.usize_below(12);
     let mut cmds = Vec::new();
     let mut have_stmt = false;
@@ -462,7 +614,13 @@ fn extra_c03(_plan: &Plan, out: &Outcome, vs: &mut Vec<Violation>) {
 // ------------------------------------------------------------------------------------------
 // C05 — sequence ids
 
-fn gen_c05(r: &mut Rng, _t: Tier, _job: u64) -> Plan {
+fn gen_c05(r: &mut Rng, t: Tier, job: u64) -> Plan {
+    let giants = if t == Tier::Quick { 8 } else { 300 };
+    if job < giants {
+        // multi-packet request whose fragment ids start near (and pass) 255
+        let seq = *r.pick(&[0u8, 1, 253, 254, 255, 252, 127]);
+        return gen_giant_inbound(r, seq);
+    }
     let mut o = ConvOpts::std();
     o.random_seq = true;
     o.max_cmds = 8;
